@@ -615,6 +615,8 @@ fn run_shard<E: Engine>(
     let failed = std::cell::Cell::new(false);
     let incon: std::cell::RefCell<Option<String>> = std::cell::RefCell::new(None);
     let strategy = stage.strategy;
+    // the first failing case as it was observed (kept in case the shrunk one does not reproduce)
+    let first: std::cell::RefCell<Option<(E::Case, Violation)>> = std::cell::RefCell::new(None);
     let result = runner.run(&strategy, |case| {
         if !failed.get() && (stop.load(Ordering::Relaxed) || incon.borrow().is_some()) {
             return Ok(());
@@ -653,6 +655,9 @@ fn run_shard<E: Engine>(
         }
         match rep.violation {
             Some(v) => {
+                if first.borrow().is_none() {
+                    *first.borrow_mut() = Some((case.clone(), v.clone()));
+                }
                 failed.set(true);
                 stop.store(true, Ordering::Relaxed);
                 Err(TestCaseError::fail(v.oracle))
@@ -664,18 +669,36 @@ fn run_shard<E: Engine>(
         Ok(()) => None,
         Err(TestError::Fail(_, case)) => {
             let rep = E::run(ctx, &case);
-            let violation = rep.violation.unwrap_or(Violation {
-                oracle: "unstable".into(),
-                step: 0,
-                detail: "the shrunk case did not fail when re-run (non-deterministic check)".into(),
-                trace: vec![],
-            });
-            Some(Failure {
-                case,
-                violation,
-                stage: stage_name.to_string(),
-                shard,
-            })
+            match (rep.violation, first.into_inner()) {
+                (Some(violation), _) => Some(Failure {
+                    case,
+                    violation,
+                    stage: stage_name.to_string(),
+                    shard,
+                }),
+                // the shrunk case depends on real thread timing and did not fail again:
+                // report the case as it was first observed, with what was observed
+                (None, Some((orig, mut violation))) => {
+                    violation.detail = format!("{} [observed on the unshrunk case; the shrunk case did not reproduce it]", violation.detail);
+                    Some(Failure {
+                        case: orig,
+                        violation,
+                        stage: stage_name.to_string(),
+                        shard,
+                    })
+                }
+                (None, None) => Some(Failure {
+                    case,
+                    violation: Violation {
+                        oracle: "unstable".into(),
+                        step: 0,
+                        detail: "the failing case did not fail when re-run (non-deterministic check)".into(),
+                        trace: vec![],
+                    },
+                    stage: stage_name.to_string(),
+                    shard,
+                }),
+            }
         }
         Err(TestError::Abort(why)) => {
             *incon.borrow_mut() = Some(format!("proptest aborted: {}", why));
